@@ -136,6 +136,21 @@ def garblerDecode [DecidableEq L] (p : Circuit2) (G : Garbled L) :
       | .ok bs => .ok (b :: bs)
       | .error e => .error e
 
+/-- The decision logic shared by the result loops of `circuit.Garbler` and of
+the streaming garbler (`compiler/ssa/streamer.go`): the i-th received label is
+compared with the two labels of the i-th result wire; `L0` gives 0, `L1` gives
+1, anything else is an error.  This is the only path from received bytes to
+result bits. -/
+def decodeLabels [DecidableEq L] : List (WireL L) → List L → Except ProtoErr (List Bool)
+  | w :: ws, l :: ls =>
+    match w.bitFrom l with
+    | none => .error (.unknownLabel ls.length)
+    | some b =>
+      match decodeLabels ws ls with
+      | .ok bs => .ok (b :: bs)
+      | .error e => .error e
+  | _, _ => .ok []
+
 /-- Oblivious transfer as a function: sender's wires, receiver's choice flags,
 receiver's labels. -/
 abbrev OtFun (L : Type) := List (WireL L) → List Bool → List L
